@@ -246,6 +246,28 @@ def group_split_without_cases(flow):
     return any((n.get("router") or {}).get("operand") == "@contact.groups" and not n["router"].get("cases") for n in flow["nodes"])
 
 
+HAS_GROUP_KEY = "has_group-edge-outside-group-split"
+
+
+def has_group_outside_split(flow):
+    """a has_group case [uuid, name] in a plain switch router whose operand is not @contact.groups"""
+    return any(node_kind(n) == "switch" and n["router"].get("operand") != "@contact.groups"
+               and any(k["type"] == "has_group" and len(k["arguments"]) == 2 for k in n["router"]["cases"]) for n in flow["nodes"])
+
+
+def without_has_group_outside_split(doc):
+    """the same document with those tests replaced by a test the format has always expressed (has_only_phrase on the
+    group name): what is left to judge when the has_group edge itself stops the recompilation"""
+    d = _copy(doc)
+    for f in d["flows"]:
+        for n in f["nodes"]:
+            if node_kind(n) == "switch" and n["router"].get("operand") != "@contact.groups":
+                for k in n["router"]["cases"]:
+                    if k["type"] == "has_group" and len(k["arguments"]) == 2:
+                        k["type"], k["arguments"] = "has_only_phrase", [k["arguments"][1]]
+    return d
+
+
 def padded(table):
     """some row of the exported sheet leaves the cells of a second (third, ...) edge all blank"""
     if not table:
@@ -372,15 +394,17 @@ def ref_uuids(flow):
 
 def split_only_groups(flow):
     """groups whose uuid the sheet format has no column for: named only in has_group cases
-    that are not the first case of their router, and in no group action"""
+    that are not the first case of a group split, and in no group action"""
     in_actions, first, others = set(), set(), set()
     for n in flow["nodes"]:
         for a in n.get("actions", []):
             for g in a.get("groups", []) or []:
                 in_actions.add(g.get("name"))
-        for i, k in enumerate((n.get("router") or {}).get("cases", [])):
+        r = n.get("router") or {}
+        for i, k in enumerate(r.get("cases", [])):
             if k["type"] == "has_group" and len(k["arguments"]) > 1:
-                (first if i == 0 else others).add(k["arguments"][1])
+                # obj_id of a split_by_group row carries the group of its first case; no other case has a column
+                (first if i == 0 and r.get("operand") == "@contact.groups" and node_kind(n) == "switch" else others).add(k["arguments"][1])
     return others - in_actions - first
 
 
@@ -399,7 +423,7 @@ def not_expressible(flow):
             for k in n["router"].get("cases", []) for c in n["router"]["categories"])
 
 
-def judge(ctx, doc, nontrivial, samples, label):
+def judge(ctx, doc, nontrivial, samples, label, surrogate=False):
     v, m, rng = ctx.v, ctx.model, ctx.rng
     flow = doc["flows"][0]
     if not_expressible(flow):
@@ -430,6 +454,7 @@ def judge(ctx, doc, nontrivial, samples, label):
         f2 = r[1]["flows"][0] if r[0] == "ok" else None
         keys = explain(m, flow, f2, tbl) if f2 is not None else None
         structural = []
+        cleaned_stops = []     # (causes removed, error) of cleaned sheets that still do not compile
         if keys is None and tbl:
             # a cause is accepted only if it is present in the table, the sheet without it compiles to something the
             # listed losses explain and - when the sheet as exported does not compile - the message is the one it produces
@@ -444,12 +469,21 @@ def judge(ctx, doc, nontrivial, samples, label):
                     continue          # spread header columns never compile
                 rr = recompile_rows(doc, {flow["name"]: clean_rows(tbl, "padded-edge-columns" in cs, "webhook-headers" in cs)})
                 if rr[0] != "ok":
+                    cleaned_stops.append((cs, rr[1]))
                     continue
                 g2 = rr[1]["flows"][0]
                 k2 = explain(m, flow, g2, tbl)
                 if k2 is not None:
                     structural, keys, f2 = cs, k2, g2
                     break
+        if keys is None and f2 is None and not surrogate and has_group_outside_split(flow) \
+                and ("IndexError" in r[1] or any(err == "IndexError" for _, err in cleaned_stops)):
+            # the has_group edge of a row that is not a split_by_group row stops the recompilation (exact exception AND
+            # the cause in the flow) - of the sheet as exported, or of the sheet without its listed structural causes;
+            # the rest of the flow (those causes included) is judged on the document without the has_group tests
+            fail("exported-sheet-does-not-compile", f"the exported sheet does not compile: {r[1]} {r[2][:150]}", HAS_GROUP_KEY)
+            judge(ctx, without_has_group_outside_split(doc), nontrivial, samples, label + "+surrogate", surrogate=True)
+            return
         if keys is None:
             if f2 is None:
                 fail("exported-sheet-does-not-compile", f"the exported sheet does not compile: {r[1]} {r[2][:150]}")
@@ -506,7 +540,12 @@ ONE_ARG_TESTS = ["all_words", "has_beginning", "has_date_eq", "has_date_gt", "ha
                  "has_number_gte", "has_number_lte", "has_only_phrase", "has_phone", "has_pattern"]
 
 
-def retype_cases(rng, flow):
+# (names the sheet generator never uses: one group name must not come with two uuids in one document)
+FOREIGN_GROUPS = {"vip list": "0a000000-0000-4000-8000-00000000000a", "members": "0b000000-0000-4000-8000-00000000000b",
+                  "beta testers": "0c000000-0000-4000-8000-00000000000c"}
+
+
+def retype_cases(rng, flow, groups=None):
     """some one-argument tests of plain switch routers get another one-argument test type (has_phone with its
     optional country code among them); never two equal tests in one router"""
     n_changed = 0
@@ -516,8 +555,14 @@ def retype_cases(rng, flow):
             continue
         for k in r["cases"]:
             if len(k["arguments"]) == 1 and rng.random() < 0.3:
-                t = rng.choice(ONE_ARG_TESTS)
+                t = "has_group" if rng.random() < 0.15 else rng.choice(ONE_ARG_TESTS)
                 args = [rng.choice(["RW", "KE", "US"])] if t == "has_phone" else k["arguments"]
+                if t == "has_group":
+                    # a membership test in a router that is not a group split (foreign exports have them)
+                    g = rng.choice(sorted(FOREIGN_GROUPS))
+                    args = [FOREIGN_GROUPS[g], g]
+                    if groups is not None and not any(x.get("name") == g for x in groups):
+                        groups.append({"uuid": FOREIGN_GROUPS[g], "name": g})
                 if not any(o is not k and o["type"] == t and o["arguments"] == args for o in r["cases"]):
                     k["type"], k["arguments"] = t, args
                     n_changed += 1
@@ -573,6 +618,9 @@ def directed_docs():
     except (OSError, ValueError, KeyError):
         return out
     for f in fs:
+        if isinstance((f.get("replay") or {}).get("doc"), dict):
+            out.append((f["key"], f["replay"]["doc"]))
+            continue
         sh = (f.get("replay") or {}).get("sheet")
         if not sh or "edges.1.from" in sh[0]:
             continue   # (a replay given as the exported sheet is not a source)
@@ -620,7 +668,7 @@ def run(ctx):
             continue
         ctx.count("src_" + label)
         if rng.random() < 0.25:
-            ctx.count("cases_retyped", retype_cases(rng, r[1]["flows"][0]))
+            ctx.count("cases_retyped", retype_cases(rng, r[1]["flows"][0], r[1].get("groups")))
         judge(ctx, r[1], nontrivial, samples, label)
     ctx.v.coverage["programs"] = ctx.stats.get("round_trips_ok", 0)
     ctx.v.coverage["disagreements_checked"] = len(ctx.disagreements) + sum(ctx.v.viol_by_key.values()) + sum(ctx.v.known_hits.values())
